@@ -395,6 +395,11 @@ func AllThresholds(maxN int) []*Policy {
 
 // AllCNF enumerates every antichain of non-empty proper subsets of n holders whose union is
 // all holders (i.e. every CNF policy with exactly n shareholders), as maximal unqualified sets.
+// NOTE: this includes policies with redundant holders (a holder contained in EVERY maximal
+// unqualified set, e.g. cnf(n=3; mus={0,1},{0,2})): the library's span programme gives such a
+// holder no row and dealers hand it no share (known finding C02-cnf-redundant-holder). Callers
+// that need every holder to own a share filter with p.RedundantHolders() == 0 (Draw already
+// returns only such policies, see DropRedundantCNF).
 func AllCNF(n int) []*Policy {
 	full := (uint64(1) << uint(n)) - 1
 	var subsets []uint64
